@@ -79,8 +79,8 @@ def build_field(df, f, emb, vs):
     reg = lat.region_of(df, m, emb, dims=list(f["dims"]), units=list(f["units"]), tolerance_factor=float(f["tol"]))
     mesh = lat.arrive_in_place(df, df.Mesh(region=reg, n=tuple(int(v) for v in m["n"])), emb, sum(int(v) for v in m["n"]) * 5 + int(f["nv"]))
     arr = value_array(f, vs)
-    return df.Field(mesh, nvdim=int(f["nv"]), value=arr, vdims=list(f["labels"]) or None,
-                    unit=f["unit"] or None, dtype=NP_DT[f["dt"]])
+    return fldmod.lived(df.Field(mesh, nvdim=int(f["nv"]), value=arr, vdims=list(f["labels"]) or None,
+                                 unit=f["unit"] or None, dtype=NP_DT[f["dt"]]), sum(int(v) for v in m["n"]) + 3 * int(f["nv"]) + len(f["labels"]))
 
 
 def strip(xa, f, S, pert, emb, coords_q=None):
